@@ -9,9 +9,14 @@
 (*                  (fsync, fd close, rename over the reservation,         *)
 (*                  directory fsync), then the engine acknowledges; any    *)
 (*                  step may fail, then Abort (remove temp, remove final)  *)
-(*   merger         the same writer over the union of two published files, *)
-(*                  then MetaStore.Update = remove each source (followed   *)
-(*                  by a directory fsync when DirSyncOnRemove)             *)
+(*   merger         the same writer over the union of a group of published *)
+(*                  files, once per merge group, then MetaStore.Update =   *)
+(*                  remove each source of every group (followed by a       *)
+(*                  directory fsync when DirSyncOnRemove); when a later    *)
+(*                  group fails, its own output is aborted and the outputs *)
+(*                  the earlier groups had already published are           *)
+(*                  tombstoned (removed, then a directory fsync when       *)
+(*                  TombSyncs) before Merge reports the failure            *)
 (*   environment    Crash (process dies; page cache survives) and          *)
 (*                  PowerLoss (namespace := last fsynced namespace plus    *)
 (*                  any subset of the later directory operations; file     *)
@@ -29,8 +34,11 @@ CONSTANTS Names,            \* base names the draw can return (collisions forced
           MaxFaults,        \* injected failures (each: the step reports an error and has no effect)
           CrashOn, PowerLossOn,
           DirSyncOnRemove,  \* Update fsyncs the directory after removing sources
+          Groups, GroupSize,\* a merge runs Groups groups of GroupSize sources each, one output per group
+          TombSyncs,        \* TombstoneFile of a published file ends with a directory fsync
           MaxIno
 
+NameSym == Permutations(Names)   \* configs that make Names model values may declare it as SYMMETRY
 Procs == Writers \cup (IF MergeOn THEN {"merger"} ELSE {})
 Paths == Names \X {"dat", "tmp"}
 NoIno == 0
@@ -41,7 +49,9 @@ VARIABLES
   pend,    \* directory operations since then: <<"bind", path, i>> | <<"unbind", path>> | <<"rename", from, to>>
   ino,     \* inode -> [data, synced, content]   data/synced in 0..2 chunks
   nextIno,
-  p,       \* process -> [pc, name, tmpIno, content, sources]
+  p,       \* process -> [pc, name, tmpIno, content, sources, todo, outs]
+           \*   merger: sources = every group's sources (what Update removes), todo = the groups still to be written,
+           \*   outs = names of the outputs earlier groups have published
   acked,   \* batches whose flush reported success
   failed,  \* batches whose flush reported failure
   faults,
@@ -51,7 +61,7 @@ VARIABLES
 
 vars == << dir, ddir, pend, ino, nextIno, p, acked, failed, faults, mwin, dead, window >>
 
-P0 == [pc |-> "idle", name |-> "", tmpIno |-> 0, content |-> {}, sources |-> {}]
+P0 == [pc |-> "idle", name |-> "", tmpIno |-> 0, content |-> {}, sources |-> {}, todo |-> << >>, outs |-> {}]
 BatchOf(w) == w
 
 Init ==
@@ -155,9 +165,9 @@ AbortRmFinal(x) ==
 AbortSync(x) ==
   /\ Alive /\ p[x].pc = "abort_sync"
   /\ IF DirSyncOnRemove THEN ddir' = dir /\ pend' = << >> ELSE UNCHANGED << ddir, pend >>
-  /\ p' = [p EXCEPT ![x].pc = "failed"]
+  /\ p' = [p EXCEPT ![x].pc = IF p[x].outs # {} THEN "tomb" ELSE "failed"]
   /\ failed' = IF x \in Writers THEN failed \cup {BatchOf(x)} ELSE failed
-  /\ mwin' = IF x = "merger" /\ DirSyncOnRemove THEN FALSE ELSE mwin
+  /\ mwin' = IF x = "merger" /\ DirSyncOnRemove /\ p[x].outs = {} THEN FALSE ELSE mwin
   /\ UNCHANGED << dir, ino, nextIno, acked, faults, dead, window >>
 
 (***************************************************************************)
@@ -179,23 +189,51 @@ FlushAck(w) ==
 (***************************************************************************)
 Published == { n \in VisibleNames(dir, ino) : \E w \in Writers : p[w].pc = "done" /\ p[w].name = n }
 
+ContentOf(S) == UNION { ino[dir[<< n, "dat" >>]].content : n \in S }
+
+\* the planner's result: Groups disjoint groups of GroupSize published files
 MergeStart ==
   /\ Alive /\ MergeOn /\ p["merger"].pc = "idle"
-  /\ \E S \in SUBSET Published : Cardinality(S) = 2
-       /\ p' = [p EXCEPT !["merger"] = [@ EXCEPT !.pc = "create", !.sources = S,
-                   !.content = UNION { ino[dir[<< n, "dat" >>]].content : n \in S }]]
+  /\ \E gs \in [1..Groups -> SUBSET Published] :
+       /\ \A g \in 1..Groups : Cardinality(gs[g]) = GroupSize
+       /\ \A g, h \in 1..Groups : g # h => gs[g] \cap gs[h] = {}
+       /\ p' = [p EXCEPT !["merger"] = [@ EXCEPT !.pc = "create", !.sources = UNION { gs[g] : g \in 1..Groups },
+                   !.content = ContentOf(gs[1]),
+                   !.todo = [g \in 1..(Groups - 1) |-> ContentOf(gs[g + 1])], !.outs = {}]]
   /\ UNCHANGED << dir, ddir, pend, ino, nextIno, acked, failed, faults, mwin, dead, window >>
+
+\* a group's output is published and further groups remain: the next one is written the same way
+MergeNextGroup ==
+  /\ Alive /\ MergeOn /\ p["merger"].pc = "published" /\ p["merger"].todo # << >>
+  /\ p' = [p EXCEPT !["merger"] = [@ EXCEPT !.pc = "create", !.outs = @ \cup {p["merger"].name}, !.name = "", !.tmpIno = 0,
+                !.content = Head(p["merger"].todo), !.todo = Tail(p["merger"].todo)]]
+  /\ UNCHANGED << dir, ddir, pend, ino, nextIno, acked, failed, faults, mwin, dead, window >>
+
+\* a later group failed (its own output is aborted): TombstoneFile of each output published before it
+TombRemove ==
+  /\ Alive /\ MergeOn /\ p["merger"].pc = "tomb"
+  /\ \E n \in p["merger"].outs :
+       /\ Unbind(<< n, "dat" >>)
+       /\ p' = [p EXCEPT !["merger"] = [@ EXCEPT !.pc = "tomb_sync", !.outs = @ \ {n}]]
+  /\ UNCHANGED << ddir, ino, nextIno, acked, failed, faults, mwin, dead, window >>
+
+TombSync ==
+  /\ Alive /\ MergeOn /\ p["merger"].pc = "tomb_sync"
+  /\ IF TombSyncs THEN ddir' = dir /\ pend' = << >> ELSE UNCHANGED << ddir, pend >>
+  /\ p' = [p EXCEPT !["merger"].pc = IF p["merger"].outs = {} THEN "failed" ELSE "tomb"]
+  /\ mwin' = IF TombSyncs /\ p["merger"].outs = {} THEN FALSE ELSE mwin
+  /\ UNCHANGED << dir, ino, nextIno, acked, failed, faults, dead, window >>
 
 \* MetaStore.Update: remove one source
 MergeRemove ==
-  /\ Alive /\ MergeOn /\ p["merger"].pc = "published" /\ p["merger"].sources # {}
+  /\ Alive /\ MergeOn /\ p["merger"].pc = "published" /\ p["merger"].todo = << >> /\ p["merger"].sources # {}
   /\ \E s \in p["merger"].sources :
        /\ Unbind(<< s, "dat" >>)
        /\ p' = [p EXCEPT !["merger"].sources = @ \ {s}]
   /\ UNCHANGED << ddir, ino, nextIno, acked, failed, faults, mwin, dead, window >>
 
 MergeUpdateDone ==
-  /\ Alive /\ MergeOn /\ p["merger"].pc = "published" /\ p["merger"].sources = {}
+  /\ Alive /\ MergeOn /\ p["merger"].pc = "published" /\ p["merger"].todo = << >> /\ p["merger"].sources = {}
   /\ IF DirSyncOnRemove THEN ddir' = dir /\ pend' = << >> ELSE UNCHANGED << ddir, pend >>
   /\ p' = [p EXCEPT !["merger"].pc = "done"]
   /\ mwin' = IF DirSyncOnRemove THEN FALSE ELSE mwin
@@ -204,8 +242,9 @@ MergeUpdateDone ==
 (***************************************************************************)
 (* crash and power loss                                                    *)
 (***************************************************************************)
-\* the merge window: from the rename that exposes the merged output until the directory fsync that makes the
-\* removal of the sources (Update) or of the output (Abort) durable
+\* the merge window: from the rename that exposes the first merged output until the directory fsync that makes the
+\* removal of the sources (Update) or of every published output (Abort of the failing one, TombstoneFile of the
+\* earlier ones) durable
 InWindow == mwin
 
 Crash ==
@@ -237,7 +276,7 @@ Next ==
   \/ \E x \in Procs : Reserve(x) \/ TmpCreate(x) \/ Write(x) \/ Sync(x) \/ Rename(x) \/ DirSync(x)
                       \/ StepFails(x) \/ AbortRmTmp(x) \/ AbortRmFinal(x) \/ AbortSync(x)
   \/ \E w \in Writers : FlushStart(w) \/ FlushAck(w)
-  \/ MergeStart \/ MergeRemove \/ MergeUpdateDone
+  \/ MergeStart \/ MergeNextGroup \/ MergeRemove \/ MergeUpdateDone \/ TombRemove \/ TombSync
   \/ Crash \/ PowerLoss
 
 Spec == Init /\ [][Next]_vars
@@ -266,11 +305,15 @@ ScanExact == (Alive /\ Quiescent) =>
      /\ \A b \in AllBatches : Count(dir, ino, b) <= 1
 \* a name bound to a readable file only ever belongs to a writer that is publishing or has published it
 NeverExposed == Alive => \A n \in VisibleNames(dir, ino) :
-     \E x \in Procs : p[x].name = n /\ p[x].pc \in {"dirsync", "published", "done", "abort_tmp", "abort_final", "abort_sync"}
+     \E x \in Procs : \/ p[x].name = n /\ p[x].pc \in {"dirsync", "published", "done", "abort_tmp", "abort_final", "abort_sync"}
+                      \/ n \in p[x].outs
 \* a published file's binding never changes except by its removal
 NoClobber == [][\A n \in Names : (Alive /\ dir[<< n, "dat" >>] # NoIno /\ Readable(ino, dir[<< n, "dat" >>])
                     /\ \E w \in Writers : p[w].pc = "done" /\ p[w].name = n)
                   => (dir'[<< n, "dat" >>] \in {dir[<< n, "dat" >>], NoIno} \/ dead' # "no")]_vars
+\* a Merge that reports a failure leaves none of its outputs behind
+FailedMergeLeavesNothing == (Alive /\ MergeOn /\ p["merger"].pc = "failed") =>
+     \A w \in Writers : p[w].pc = "done" => Count(dir, ino, BatchOf(w)) = 1
 AbortLeavesNothing == Alive => \A x \in Procs : p[x].pc = "failed" =>
      \A k \in {"dat", "tmp"} : dir[<< p[x].name, k >>] = NoIno \/ \E y \in Procs \ {x} : p[y].name = p[x].name /\ p[y].pc # "failed"
 =============================================================================
